@@ -1,0 +1,7 @@
+//go:build !verif
+
+package dawn
+
+func verifYield(point, label string) {}
+
+func verifCrash(point, label string) {}
